@@ -113,5 +113,10 @@ class _PboxOpsMixin:
 
     # Optional: delegate *other* methods/attributes to the Pbox view
     def __getattr__(self, name):
-        # Called only if normal lookup fails, so avoid shadowing real attrs
+        # Called only if normal lookup fails, so avoid shadowing real attrs.
+        # Private / dunder names are never delegated: copy, deepcopy and pickle probe
+        # `__deepcopy__`, `__setstate__`, ... on an instance whose own attributes are not
+        # set yet, and delegating those lookups to `_to_pbox()` recursed without end.
+        if name.startswith("_"):
+            raise AttributeError(name)
         return getattr(self._to_pbox(), name)
